@@ -18,6 +18,7 @@ type srcBlock struct {
 	rb     *cu.RefBlock
 	depth  int
 	badNum bool
+	noBabe bool // header whose first digest item is not a BABE pre-runtime digest: AddBlock cannot tell primary from secondary and refuses it
 }
 
 type treeNode struct {
@@ -63,7 +64,7 @@ func runTree(k *kernel.K) {
 			} else {
 				p = pool[k.Choose(len(pool), "parent")]
 			}
-			if p.depth >= maxDepth || p.badNum {
+			if p.depth >= maxDepth || p.badNum || p.noBabe {
 				continue
 			}
 			salt++
@@ -74,8 +75,16 @@ func runTree(k *kernel.K) {
 				num += 1 + uint(k.Choose(2, "badnum-delta"))
 			}
 			h := mkHeader(p.rb.Hash, num, primary, salt)
+			noBabe := !bad && k.Bool(1, 40, "no-babe-digest")
+			if noBabe {
+				dg := types.NewDigest()
+				if k.Bool(1, 2, "foreign-first-item") {
+					dg.Add(types.ConsensusDigest{ConsensusEngineID: types.GrandpaEngineID, Data: []byte{1, byte(salt)}})
+				}
+				h = types.NewHeader(p.rb.Hash, common.Hash{0x6e, byte(salt)}, common.Hash{}, num, dg)
+			}
 			arr := baseTime.Add(time.Duration(k.Choose(4, "arrival")) * time.Second)
-			sb := &srcBlock{rb: &cu.RefBlock{Hash: h.Hash(), Parent: p.rb.Hash, Number: num, Primary: primary, Arrival: arr, Header: h}, depth: p.depth + 1, badNum: bad}
+			sb := &srcBlock{rb: &cu.RefBlock{Hash: h.Hash(), Parent: p.rb.Hash, Number: num, Primary: primary, Arrival: arr, Header: h}, depth: p.depth + 1, badNum: bad, noBabe: noBabe}
 			pool = append(pool, sb)
 			k.Event("produce", "%s parent=%s num=%d primary=%v arr=+%ds", cu.Short(sb.rb.Hash), cu.Short(p.rb.Hash), num, primary, int(arr.Sub(baseTime).Seconds()))
 			for _, n := range nodes {
@@ -152,6 +161,14 @@ func (n *treeNode) deliver(k *kernel.K, sb *srcBlock) {
 		k.Event("badnum-deliver", "n%d %s", n.id, cu.Short(rb.Hash))
 		if err == nil {
 			k.Violate("C15", "add-badnumber", "wrong-number-accepted", "node %d: block %s with number %d under parent number %d accepted", n.id, cu.Short(rb.Hash), rb.Number, n.ref.Blocks[rb.Parent].Number)
+		}
+	case sb.noBabe && err != nil:
+		// refused, as it may be: then it was not added and nothing of it may be in the tree (the block-set
+		// comparison of check() and a later re-delivery see to that)
+		k.Event("nobabe-refused", "n%d %s", n.id, cu.Short(rb.Hash))
+		k.Probe("header-without-babe-digest-refused")
+		if err2 := n.bt.AddBlock(rb.Header, rb.Arrival); err2 == nil {
+			k.Violate("C15", "add-refused", "refused-block-accepted-on-redelivery", "node %d: block %s was refused (%v) and accepted when delivered again", n.id, cu.Short(rb.Hash), err)
 		}
 	default:
 		k.Event("deliver", "n%d %s", n.id, cu.Short(rb.Hash))
